@@ -56,7 +56,10 @@ func txEdits() []txEdit {
 		}},
 		{"inL.prevscript-grown-in-place", nil, func(l *bt.Tx, r *txref.Tx) {
 			k := last(len(r.Ins))
-			_ = l.Inputs[k].PreviousTxScript.AppendOpcodes(bscript.OpNOP)
+			// (the harness packs all scripts of a transaction into one buffer, so the owner grows its
+			// script into memory of its own - appending in place would write into the neighbour)
+			ps := l.Inputs[k].PreviousTxScript
+			*ps = append(append(make([]byte, 0, len(*ps)+1), *ps...), 0x61)
 			r.Ins[k].PrevScript = append(append([]byte(nil), r.Ins[k].PrevScript...), 0x61)
 		}},
 		{"out0.script-bytes-in-place", func(r *txref.Tx) bool { return len(r.Outs) > 0 && len(r.Outs[0].Script) > 0 }, func(l *bt.Tx, r *txref.Tx) {
